@@ -15,7 +15,12 @@ static void pin() { random_utils::rand.seed(0x5eed1234ULL); random_utils::random
 template<typename V> static std::string strv(const V& v) { return hex(v.data(), v.size()); }
 
 // ------------------------------------------------------------------ tdigest
+// A digest far larger than any image of this corpus (a corrupted count that the input happened to back): summary only, so that
+// the monitor's own text rendering of millions of centroids is not mistaken for an endless loop of the library.
+template<typename T> static bool td_giant(const tdigest<T>& s) { return s.get_serialized_size_bytes(true) > (1u << 16); }
 template<typename T> static std::string td_readout(const tdigest<T>& s) {
+  if (td_giant(s)) return "GIANT k=" + std::to_string(s.get_k()) + " empty=" + std::to_string(s.is_empty()) + " w=" + std::to_string(s.get_total_weight()) +
+                          " sszb=" + std::to_string(s.get_serialized_size_bytes(true)) + " str=" + strv(s.to_string(false));
   // the image with the buffer first: get_rank / get_quantile / serialize(with_buffer = false) compress as a side effect
   const auto wb = s.serialize(0, true);
   std::string o = "k=" + std::to_string(s.get_k()) + " empty=" + std::to_string(s.is_empty()) + " w=" + std::to_string(s.get_total_weight());
@@ -48,6 +53,7 @@ template<typename T> static std::string td_readout(const tdigest<T>& s) {
 }
 template<typename T> static void td_use(tdigest<T>& s) {
   Rng r(96);
+  if (td_giant(s)) { s.update(static_cast<T>(1)); (void)s.get_total_weight(); return; }
   for (int i = 0; i < 50; ++i) s.update(static_cast<T>(r.unit() * 100 - 50));
   tdigest<T> fresh(20);
   for (int i = 0; i < 200; ++i) fresh.update(static_cast<T>(r.unit() * 10));
@@ -193,8 +199,15 @@ template<typename T> static void add_misc(std::vector<std::vector<Target>>& fam,
   for (auto& k : dks) {
     const int kk = k.k;
     BuildFn b = [kk](Rng& r, bool T_) { return td_image<T>(r, T_, kk); };
-    fam.back().push_back({"tdigest_" + suffix, k.name, "bytes", b, bytes_path(td_bytes<T>)});
-    fam.back().push_back({"tdigest_" + suffix, k.name, "stream", b, stream_path(td_stream<T>)});
+    // native images: preamble longs as declared (8 or 16 bytes); reference-implementation images: type word, min, max,
+    // compression and the centroid count (32 bytes for asBytes(), 30 for asSmallBytes())
+    auto pre = [kk](const Bytes& img) -> size_t {
+      if (kk == D_COMPAT_DOUBLE) return std::min<size_t>(img.size(), 32);
+      if (kk == D_COMPAT_FLOAT) return std::min<size_t>(img.size(), 30);
+      return default_preamble("tdigest", img);
+    };
+    fam.back().push_back({"tdigest_" + suffix, k.name, "bytes", b, bytes_path(td_bytes<T>), pre});
+    fam.back().push_back({"tdigest_" + suffix, k.name, "stream", b, stream_path(td_stream<T>), pre});
   }
   fam.emplace_back();
   for (auto& k : nks) {
